@@ -30,6 +30,9 @@ func checkC20(c *Ctx) {
 	c.Decides("ROTATE-ALL: RotateInternalNodes shuffles every node that has at least two neighbours (the bifurcating root of a rooted tree included)")
 	c.rotateAll("ROTATE-ALL")
 	c.Floor("ROTATE-ALL", 1)
+	c.Decides("CANDIDATES: every branch created by the uniform generator is appended to the list the insertion point is drawn from")
+	c.uniformCandidates("CANDIDATES")
+	c.Floor("CANDIDATES", 4)
 	c.Floor("DRAW", 6)
 	n := 0
 	for _, p := range c.All {
